@@ -118,7 +118,9 @@ def judge_case(case, rec, log, start_factor=None, reuse=False):
     from vf.core import CaseTimeout, time_limit
 
     try:
-        scheme = S.build_scheme(c, maximum_number_function_evaluations=2)
+        # a reused scheme is built the way Scheme() defaults build it (add_svd=True): what the first run leaves on the
+        # caller's datasets (SVD variables with their own dimensions) must not change how the second run evaluates
+        scheme = S.build_scheme(c, maximum_number_function_evaluations=2, **({"add_svd": True} if reuse else {}))
         with time_limit(30):
             optimize(scheme, verbose=False, raise_exception=True)
             if reuse:
